@@ -503,7 +503,7 @@ theorem reSR_none (ent : ChEntry) : reSR none ent = stripSR ent := by
   cases ent.data <;> rfl
 
 /-- one channel read back into an element that does not have it yet -/
-theorem chanOfDesc_step' (e0 : Element) (p : Chan × ChEntry) (hp : ChanOk p) (hnew : p.1 ∉ Dict.keys e0.chans)
+theorem chanOfDesc_step_sr (e0 : Element) (p : Chan × ChEntry) (hp : ChanOk p) (hnew : p.1 ∉ Dict.keys e0.chans)
     (kd : String × J) (hkd : chanField p = .ok kd) (sr : Option Val) :
     chanOfDesc e0 kd.1 kd.2 sr = .ok { e0 with chans := e0.chans ++ [(p.1, reSR sr p.2)] } := by
   obtain ⟨ch, ent⟩ := p
@@ -549,7 +549,7 @@ theorem chanOfDesc_step' (e0 : Element) (p : Chan × ChEntry) (hp : ChanOk p) (h
 theorem chanOfDesc_step (e0 : Element) (p : Chan × ChEntry) (hp : ChanOk p) (hnew : p.1 ∉ Dict.keys e0.chans)
     (kd : String × J) (hkd : chanField p = .ok kd) :
     chanOfDesc e0 kd.1 kd.2 none = .ok { e0 with chans := e0.chans ++ [(p.1, stripSR p.2)] } := by
-  rw [chanOfDesc_step' e0 p hp hnew kd hkd none, reSR_none]
+  rw [chanOfDesc_step_sr e0 p hp hnew kd hkd none, reSR_none]
 
 /-- **the round trip of an element**: an element whose channels are integer-numbered blueprint
     channels (blueprints reachable through the public API over the built-in shapes, flags as
@@ -710,7 +710,7 @@ theorem chan_fold (specs : List (String × J)) (sr : Val) :
           have := List.nodup_append.mp hnd
           exact this.2.2 _ hm _ (by simp) rfl
         have hcok := hok p (by simp)
-        have hstep := chanOfDesc_step' ⟨acc, none⟩ p hcok hnew kd hp (some sr)
+        have hstep := chanOfDesc_step_sr ⟨acc, none⟩ p hcok hnew kd hp (some sr)
         obtain ⟨nch, hint⟩ := hcok.1
         have hparse : parseChan kd.1 = .ok p.1 := by
           rw [chanField_key p kd hp, hint]; exact parseChan_int nch
